@@ -178,8 +178,11 @@ class TransmissionGenerator:
                 i * octets_per_block : i * octets_per_block + octets_per_block
             ]
             block_type = last_slice_type if i == (num_bursts - 1) else slice_type
+            # only the last block carries the packet CRC-32 (and covers it with its CRC-9)
             block = packet_type(
-                packet_type=block_type, data=userdata_slice, crc32=userdata_crc32
+                packet_type=block_type,
+                data=userdata_slice,
+                crc32=userdata_crc32 if block_type == last_slice_type else 0,
             )
             # TODO better burst from contained data init
             burst = Burst(burst_type=BurstTypes.DataAndControl)
